@@ -771,9 +771,19 @@ func resolve(v ssa.Value) ssa.Value {
 		switch x := v.(type) {
 		case *ssa.UnOp:
 			if x.Op == token.MUL {
+				if fv, ok := x.X.(*ssa.FreeVar); ok {
+					if s := reachingStoreAddr(x, fv); s != nil {
+						v = s
+						continue
+					}
+				}
 				if a, ok := x.X.(*ssa.Alloc); ok {
 					if s := reachingStore(x, a); s != nil {
 						v = s
+						continue
+					}
+					if s := uniqueStore(a); s != nil && dominates(s, x) {
+						v = s.Val
 						continue
 					}
 				}
@@ -956,4 +966,87 @@ func returnsOf(f *ssa.Function) []*ssa.Return {
 		}
 	}
 	return out
+}
+
+// structOf: the struct type behind a (pointer to a) possibly unnamed struct.
+func structOf(t types.Type) *types.Struct {
+	if pt, ok := t.Underlying().(*types.Pointer); ok {
+		t = pt.Elem()
+	}
+	st, _ := t.Underlying().(*types.Struct)
+	return st
+}
+
+// uniqueStore: the only store ever made to local variable a (also counting the
+// closures that capture it); nil if there is none or more than one, or the
+// address escapes in another way.
+func uniqueStore(a *ssa.Alloc) *ssa.Store {
+	var only *ssa.Store
+	n := 0
+	var scan func(addr ssa.Value, fn *ssa.Function) bool
+	scan = func(addr ssa.Value, fn *ssa.Function) bool {
+		refs := addr.Referrers()
+		if refs == nil {
+			return true
+		}
+		for _, r := range *refs {
+			switch x := r.(type) {
+			case *ssa.Store:
+				if x.Addr == addr {
+					n++
+					only = x
+				} else {
+					return false // address stored somewhere
+				}
+			case *ssa.UnOp, *ssa.DebugRef:
+			case *ssa.MakeClosure:
+				cf, ok := x.Fn.(*ssa.Function)
+				if !ok {
+					return false
+				}
+				for i, b := range x.Bindings {
+					if b == addr && i < len(cf.FreeVars) {
+						if !scan(cf.FreeVars[i], cf) {
+							return false
+						}
+					}
+				}
+			default:
+				return false
+			}
+		}
+		return true
+	}
+	if !scan(a, a.Parent()) || n != 1 {
+		return nil
+	}
+	if only.Parent() != a.Parent() {
+		return nil
+	}
+	return only
+}
+
+// reachingStoreAddr: like reachingStore for an arbitrary address value (a
+// captured variable): any call between the store and the load is a barrier.
+func reachingStoreAddr(ld *ssa.UnOp, addr ssa.Value) ssa.Value {
+	b := ld.Block()
+	idx := instrIndex(ld)
+	for hops := 0; hops < 8 && b != nil; hops++ {
+		for i := idx - 1; i >= 0; i-- {
+			switch s := b.Instrs[i].(type) {
+			case *ssa.Store:
+				if s.Addr == addr {
+					return s.Val
+				}
+			case ssa.CallInstruction:
+				return nil
+			}
+		}
+		if len(b.Preds) != 1 {
+			return nil
+		}
+		b = b.Preds[0]
+		idx = len(b.Instrs)
+	}
+	return nil
 }
